@@ -5,6 +5,7 @@ import (
 	"go/ast"
 	"go/token"
 	"go/types"
+	"golang.org/x/tools/go/packages"
 	"sort"
 	"strings"
 )
@@ -208,6 +209,7 @@ func runC06(p *Prog, r *Report) {
 	c06R2(p, r)
 	c06R3(p, r)
 	c06R4(p, r)
+	c06R5(p, r)
 }
 
 // ---------------------------------------------------------------- R1 designed panics
@@ -1364,4 +1366,239 @@ func isIntegerType(t types.Type) bool {
 func isIntegerType16(t types.Type) bool {
 	b, ok := t.Underlying().(*types.Basic)
 	return ok && b.Kind() == types.Uint16
+}
+
+// c06R5: optional session state. The packet unpackers keep per-session objects (the previous
+// server session's AEAD, …) in fields that stay nil until a session change fills them. A method
+// call through a local of interface or pointer type that can hold such a field's value is
+// reached only behind a non-nil test of that very field: the identifiers that select the
+// session come from the packet, so a datagram naming the zero-valued slot would otherwise call
+// through nil.
+func c06R5(p *Prog, r *Report) {
+	const rule = "C06-R5"
+	r.Rule(rule, "no call through an unset session slot: in the UnpackInPlace implementations of ss2022, every method call on a local variable is reached only by definitions that are (a) a field of the receiver that every constructor literal of the type sets, (b) a field read behind the true edge of `that field != nil`, (c) the result of a call on its success edge, or (d) a fresh value; the zero declaration does not reach the call")
+	pkg := p.Pkg("ss2022")
+	n := 0
+	// fields every composite literal of the type sets
+	alwaysSet := func(typeName, field string) bool {
+		lits, all := 0, true
+		for _, f := range pkg.Syntax {
+			ast.Inspect(f, func(x ast.Node) bool {
+				cl, ok := x.(*ast.CompositeLit)
+				if !ok || namedTypeName(pkg.TypesInfo.TypeOf(cl)) != typeName {
+					return true
+				}
+				lits++
+				found := false
+				for _, el := range cl.Elts {
+					if kv, ok := el.(*ast.KeyValueExpr); ok {
+						if id, ok := kv.Key.(*ast.Ident); ok && id.Name == field {
+							found = true
+						}
+					}
+				}
+				if !found {
+					all = false
+				}
+				return true
+			})
+		}
+		return lits > 0 && all
+	}
+	var fcs []*FuncCtx
+	fcs = append(fcs, implsOf(p, "zerocopy", "ClientUnpacker", "UnpackInPlace")...)
+	fcs = append(fcs, implsOf(p, "zerocopy", "ServerUnpacker", "UnpackInPlace")...)
+	seen := map[*FuncCtx]bool{}
+	for _, fc := range fcs {
+		if seen[fc] || fc.Pkg != pkg {
+			continue
+		}
+		seen[fc] = true
+		info := fc.Info()
+		recv := fc.RecvObj()
+		if recv == nil {
+			continue
+		}
+		recvT := namedTypeName(recv.Type())
+		for _, cs := range fc.AllCalls() {
+			sel, ok := ast.Unparen(cs.Call.Fun).(*ast.SelectorExpr)
+			if !ok {
+				continue
+			}
+			x, _ := objOf(info, sel.X).(*types.Var)
+			if x == nil || x.IsField() || x == recv || (x.Pkg() != nil && x.Parent() == x.Pkg().Scope()) {
+				continue
+			}
+			switch x.Type().Underlying().(type) {
+			case *types.Interface, *types.Pointer:
+			default:
+				continue
+			}
+			if s2 := info.Selections[sel]; s2 == nil || s2.Kind() != types.MethodVal {
+				continue
+			}
+			isParam := false
+			for i := 0; fc.ParamObj(i) != nil; i++ {
+				if fc.ParamObj(i) == types.Object(x) {
+					isParam = true
+				}
+			}
+			if isParam {
+				continue
+			}
+			// a local nil test of x itself on the way settles it
+			if fc.G.EdgeDominates(fc.TestEdges(func(e ast.Expr) bool { return objOf(info, e) == types.Object(x) }, WantNonNil), cs.V) {
+				continue
+			}
+			n++
+			bad := ""
+			for _, d := range fc.ReachingDefs(cs.V, x) {
+				if d == fc.G.Entry {
+					bad = "undefined"
+					continue
+				}
+				switch nd := fc.G.V[d].Node.(type) {
+				case *ast.ValueSpec:
+					if len(nd.Values) == 0 {
+						bad = "its zero declaration"
+					}
+				case *ast.AssignStmt:
+					if len(nd.Lhs) != len(nd.Rhs) {
+						// multi-value call: accepted on the call's success edge
+						if c, okc := ast.Unparen(nd.Rhs[0]).(*ast.CallExpr); okc {
+							okSucc := false
+							for _, c2 := range fc.AllCalls() {
+								if c2.Call == c && (c2.SuccessGuards(cs.V) || len(c2.ResultEdges(-1, WantNil)) > 0) {
+									okSucc = true
+								}
+							}
+							if !okSucc {
+								bad = exprStr(nd)
+							}
+						}
+						continue
+					}
+					for i, l := range nd.Lhs {
+						if objOf(info, l) != types.Object(x) {
+							continue
+						}
+						rhs := ast.Unparen(nd.Rhs[i])
+						root, path, okp := pathOf(info, rhs)
+						if okp && root == recv && path != "" {
+							field := strings.TrimPrefix(path, ".")
+							if !strings.Contains(field, ".") && alwaysSet(recvT, field) {
+								continue
+							}
+							nn := fc.TestEdges(func(e ast.Expr) bool { return samePath(info, e, rhs) }, WantNonNil)
+							if fc.G.EdgeDominates(nn, d) {
+								continue
+							}
+							// or behind the test of a companion field: one that is assigned wherever this
+							// one is, in the same straight-line stretch (the slots of one session move together)
+							okCompanion := false
+							for _, cv := range fc.G.V {
+								x2, y2, op2, okc := condParts(cv)
+								if !okc || y2 == nil || op2 != token.NEQ || !isNilExpr(info, y2) {
+									continue
+								}
+								r2, p2, ok2 := pathOf(info, x2)
+								if !ok2 || r2 != recv || p2 == "" || strings.Contains(p2[1:], ".") {
+									continue
+								}
+								var te []Edge
+								for _, e := range cv.Succs {
+									if e.Label == LTrue {
+										te = append(te, e)
+									}
+								}
+								if fc.G.EdgeDominates(te, d) && c06SetTogether(p, pkg, recvT, field, p2[1:]) {
+									okCompanion = true
+								}
+							}
+							if !okCompanion {
+								bad = exprStr(rhs) + " (read without a non-nil test of that field or of a field that is always set together with it)"
+							}
+							continue
+						}
+						if _, isCall := rhs.(*ast.CallExpr); isCall {
+							continue // constructor result
+						}
+						if u, isU := rhs.(*ast.UnaryExpr); isU && u.Op == token.AND {
+							continue
+						}
+						if isNilExpr(info, rhs) {
+							bad = "nil"
+						}
+					}
+				}
+			}
+			r.Check(bad == "", rule, fmt.Sprintf("%s:call-%s.%s", fc.Name, x.Name(), sel.Sel.Name), cs.Pos(), "every value of "+x.Name()+" that reaches the call is set", "the call "+exprStr(cs.Call.Fun)+" can be reached with "+x.Name()+" holding "+bad+": a datagram that selects a session slot which was never filled (its identifier still has the zero value) makes the unpacker call through nil and crash")
+		}
+	}
+	r.Count("calls_through_session_locals", n)
+	r.Floor(rule, 2)
+}
+
+// c06SetTogether: fields a and b of the type are assigned together — in every function of the
+// package, each assignment to recv.a has an assignment to recv.b in the same straight-line
+// stretch (one dominates the other and nothing between them can leave the function), and vice
+// versa.
+func c06SetTogether(p *Prog, pkg *packages.Package, typeName, a, b string) bool {
+	okAll, nA := true, 0
+	p.AllFuncs(pkg, func(top *FuncCtx) {
+		for _, fc := range allCtxs(p, top) {
+			info := fc.Info()
+			assigns := func(f string) []int {
+				var out []int
+				for _, v := range fc.G.V {
+					as, ok := v.Node.(*ast.AssignStmt)
+					if !ok || v.Kind != VStmt {
+						continue
+					}
+					for _, l := range as.Lhs {
+						sel, ok := ast.Unparen(l).(*ast.SelectorExpr)
+						if !ok || sel.Sel.Name != f {
+							continue
+						}
+						if t := info.TypeOf(sel.X); t != nil {
+							if pt, ok := t.Underlying().(*types.Pointer); ok {
+								t = pt.Elem()
+							}
+							if namedTypeName(t) == typeName {
+								out = append(out, v.ID)
+							}
+						}
+					}
+				}
+				return out
+			}
+			as, bs := assigns(a), assigns(b)
+			nA += len(as)
+			pair := func(xs, ys []int) bool {
+				for _, x := range xs {
+					found := false
+					for _, y := range ys {
+						first, second := x, y
+						if !fc.G.Dominates([]int{first}, second) {
+							first, second = y, x
+						}
+						if fc.G.Dominates([]int{first}, second) {
+							// nothing leaves between them: the exit is not reachable from first around second
+							if !fc.G.ReachAfter(first, func(v *Vertex) bool { return v.ID == second }, nil)[fc.G.Exit] {
+								found = true
+							}
+						}
+					}
+					if !found {
+						return false
+					}
+				}
+				return true
+			}
+			if !pair(as, bs) || !pair(bs, as) {
+				okAll = false
+			}
+		}
+	})
+	return okAll && nA > 0
 }
